@@ -255,6 +255,37 @@ def _validity_intervals(ctx, chk, wl, wflow, mod, gridp, closed, base_name, coln
             chk.ob("C10.O5", gp_ok, where_of(wl, x), "gaps = %s" % ast.unparse(x.value)[:100], "source steps larger than the smallest step",
                    key="populate_water_level|gap-predicate", why="a single missing reading is a gap; a predicate that tolerates it interpolates across it")
 
+def _positional_pairing(ctx, chk, f, site, tab, staging, valcol):
+    """INSERT INTO <tab> VALUES (?, ?, ?) fed by zip(grid[:-1], grid[1:], VALUES) with VALUES read from the staging table:
+    the k-th value lands on the k-th grid step.  That is the value *of* that step only if the query returns exactly one row
+    per grid instant -- a join with grid_time / epoch IN (SELECT epoch FROM grid_time).  A range (BETWEEN first AND last)
+    also returns the rows that lie between grid instants.  Returns True when a verdict (either way) was given."""
+    flow = Flow.of(f)
+    z = site.params_node
+    if not (isinstance(z, ast.Call) and isinstance(z.func, ast.Name) and z.func.id == "zip" and len(z.args) == 3):
+        return False
+    vals = z.args[2]
+    # the query the value list comes from: a SELECT site of this function on the staging table
+    sels = [s for s in ctx.sites_in(f) if s.stmt is not None and s.stmt.kind == "select" and any(x.table == staging for x in s.stmt.sources)
+            and any(c[0][0] == "col" and c[0][2] == valcol for c in s.stmt.columns)]
+    vex = flow.expand(vals, keep=set(f.params)) if not isinstance(vals, ast.Name) else (flow.def_value(vals) or vals)
+    from_cursor = any(isinstance(c, ast.Call) and isinstance(c.func, ast.Attribute) and c.func.attr in ("fetchall", "execute", "fetchmany") for c in ast.walk(vex)) \
+        or any(isinstance(n, ast.Name) and n.id == "cursor" for n in ast.walk(vex))
+    if len(sels) != 1 or not from_cursor:
+        return False
+    q = sels[0].stmt
+    restricted = any(x.table == "grid_time" for x in q.sources) or "grid_time" in (expr_str(q.where) if q.where is not None else "")
+    if restricted:
+        chk.indeterminate("C10.O2", where_of(f, site.call), "%s rows are built in Python from a query restricted to the grid instants and paired with the grid by position; the pairing is not read" % tab)
+        return True
+    chk.ob("C10.O2", False, where_of(f, sels[0].call), "%s values are paired with the grid steps by position (zip), but the query that supplies them returns every %s row %s"
+           % (tab, staging, ("with " + expr_str(q.where)[:60]) if q.where is not None else "(no WHERE)"),
+           "the value stored for a step is the source value stamped with that step's start: joined on the epoch, or selected for the grid instants only",
+           key="%s|positional-pairing" % f.qualname,
+           why="a source with rows between grid instants (ET every 10 min, rain every 30 min) passes the coverage check; by position the step k then receives the k-th row of the range, not the row of its own instant, and zip drops the surplus silently")
+    return True
+
+
 def run(ctx, chk, tier="quick"):
     chk.explanation = (
         "SQL ASTs of the grid query and of the two INSERT ... SELECT copies with their parameter "
@@ -421,6 +452,8 @@ def run(ctx, chk, tier="quick"):
                                       ("load.populate_evapotranspiration", "evapotranspiration", "evapotranspiration_staging", "evapotranspiration_mm_h")):
         f = ctx.func(fq)
         ins = [s for s in ctx.sites_in(f) if s.stmt is not None and s.stmt.kind == "insert" and s.stmt.table == tab]
+        if len(ins) == 1 and ins[0].stmt.select is None and _positional_pairing(ctx, chk, f, ins[0], tab, staging, valcol):
+            continue
         if len(ins) != 1 or ins[0].stmt.select is None:
             chk.indeterminate("C10.O2", where_of(f, f.node), "INSERT INTO %s ... SELECT not found" % tab)
             continue
